@@ -4,6 +4,7 @@ Line-protocol driver for the C03 models (metric block merge + family compaction)
   merge <blk> <blk> ...                      -> ok <canonical blk>
   wr <blk>                                   -> ok <canonical blk read back from the model block writer's output>
   reset                                       -> ok
+  reopen                                      -> ok L0:<files> L1:<files>     (store closed and opened again: identity)
   flush <metric>=<blk> <metric>=<blk> ...     -> ok L0:<files> L1:<files>
   compact <threshold> <maxFileSize> <k:len,k:len,...|-> [failAt|- [open:<i>:<enoent|io>]]  -> <skipped|moved|merged|fail> L0:<files> L1:<files>
                                                  (failAt: the output file with that index cannot be created; open: the open of
@@ -250,6 +251,8 @@ def step (st : Family Int) (ws : List String) : Family Int × String :=
       | none => (st, "err empty")
     | none => (st, "bad-op")
   | ["reset"] => (Family.empty, "ok")
+  -- the store is closed and reopened: the family (the version the manifest holds) is what it was
+  | ["reopen"] => (st, "ok " ++ showLevels st)
   | "flush" :: rest =>
     match rest.mapM parseEntry with
     | some es => let s := flush st es; (s, "ok " ++ showLevels s)
